@@ -159,12 +159,15 @@ def expected(op, st, keyspec):
     return [("pe", op[3], op[1], op[2])]
 
 
-def run_impl(ops, w, h):
+def run_impl(ops, w, h, with_screen=False):
     clock = task.Clock()
     old = vclient.reactor
     vclient.reactor = clock
     try:
         c, trace = connect(w=w, h=h)
+        if with_screen:
+            # the client already holds a framebuffer (an earlier update): what it sends must not depend on that
+            c.updateRectangle(0, 0, 2, 2, bytes(16))
         per_op = []
         for op in ops:
             n0 = len(trace)
@@ -220,7 +223,8 @@ def run(ctx):
     kout = ctx.drive(klines) if klines else []
     for i, ops in enumerate(hist):
         w, h = sizes[i]
-        per_op, allw, err, partial = run_impl(ops, w, h)
+        per_op, allw, err, partial = run_impl(ops, w, h, with_screen=(i % 2 == 1))
+        ctx.count("client_with_screen" if i % 2 == 1 else "client_without_screen")
         kinds = {o[0] + (o[1] if o[0] == "p" else "") for o in ops}
         ctx.case({"ops": [tok(o) for o in ops][:10]} if i in (0, 4, 7) else None, key=repr(ops) if len(kinds) >= 3 else None)
         for o in ops:
